@@ -89,6 +89,12 @@ def classify(pid, cfg, p, sname):
             return "known" if p["d4"] == "1" else "oracle"
         return "oracle" if (p["disc"] == "1" or p.get("hyp") == "1") else "ignore"
     if t == "diff":
+        if pid == "C16" and p.get("model") == "abort" and p.get("impl") not in (None, "<missing>") \
+                and p.get("d4", "0") != "1" and (p["disc"] == "1" or p.get("hyp") == "1"):
+            # the model (clone_dead_aborts is a theorem about it) says this call clones a handle to a
+            # destroyed object and the process ends here; the implementation printed a result for the call:
+            # it did not abort. A concrete failing input for C16 itself, not only a disagreement.
+            return "oracle"
         fields = set(p["fields"])
         d4i = p.get("d4_idx")
         if d4i is not None and p.get("first_by_field"):
